@@ -1673,6 +1673,11 @@ func (s *ImmuServer) UseDatabase(ctx context.Context, req *schema.Database) (*sc
 		if err != nil {
 			return nil, err
 		}
+		// an ongoing transaction stays bound to the database it was opened on while
+		// its statements are authorized against the selected one
+		if sess.HasTransactions() {
+			return nil, status.Error(codes.FailedPrecondition, "database selection is not allowed while the session has ongoing transactions")
+		}
 		sess.SetDatabase(db)
 	}
 
